@@ -413,3 +413,15 @@ Definition outxo (a : option Mx) : option (Z * mat * Z * Z) :=
   match a with None => None | Some a => Some (outx a) end.
 Definition obind (a : option Mx) (f : Mx -> option Mx) : option Mx :=
   match a with None => None | Some a => f a end.
+
+(* ---- in-place operators ----
+   new_value = self <op> other; self._matrix = new_value._matrix; self takes new_value's bits
+   (`+=` through the bits setter, the others by assigning _bits; `@=` also takes rows/columns);
+   the statement's value is self.copy() -- self keeps its own max_bits *)
+Definition inplace_self (a n : Mx) : Mx := MkMx (bits n) (maxb a) (dat n).
+Definition miadd (a b : Mx) : Mx :=
+  let n := madd a b in mcopy (mset_bits (MkMx (bits a) (maxb a) (dat n)) (bits n)).
+Definition misub (a b : Mx) : Mx := mcopy (inplace_self a (msub a b)).
+Definition mimul (a b : Mx) : Mx := mcopy (inplace_self a (mmul a b)).
+Definition mimatmul (a b : Mx) : Mx := mcopy (inplace_self a (mmatmul a b)).
+Definition mipow (a : Mx) (n : nat) : Mx := mcopy (inplace_self a (mpow a n)).
